@@ -4,34 +4,46 @@ SPEC = {'id': 'C30',
  'driver': 'raftmodel',
  'harness_bin': 'harness_raft',
  'compare': 'lines',
- 'props_module': 'AgdbRaft.Props.C30n3',
+ 'props_module': 'AgdbRaft.Props.C30n3r',
  'audit_file': 'AgdbRaft/Audit/C30.lean',
- 'full_theorems': ['exploreSet_sound', 'C30_n1', 'C30_n2', 'C30_n3_election'],
+ 'full_theorems': ['exploreSetP_sound',
+                   'exploreSet_sound',
+                   'reachesWithinP_seq',
+                   'C30_n1',
+                   'C30_n2',
+                   'C30_n3_election',
+                   'C30_n3_replication',
+                   'C30_n3',
+                   'C30_post_partition'],
  'partial_theorems': [],
  'counterexamples': [],
  'level': 'other',
- 'level_text': 'Lean: a breadth-first explorer over ALL fault-free executions (every message delivered exactly once in any order, time advancing by '
-               'a fixed quantum only at quiescence followed by one timer pass of every node, the client appending at the leader) with a general '
-               'soundness theorem exploreSet_sound (explorer true => every execution reaches the goal within the bound), instantiated by kernel '
-               'evaluation (decide +kernel, no native_decide): C30_n1 and C30_n2 (1- and 2-node clusters elect exactly one leader and an appended '
-               'entry becomes present and committed on every node), C30_n3_election (a fresh 3-node cluster elects exactly one leader in every '
-               'delivery order; 447 distinct states). These are proofs for those finite configurations with the default timer ratios only; 3-node '
-               'replication after election, larger clusters, other timer ratios and post-partition start states are covered only by the harness: '
-               'fault-free schedules (from the initial state and after an adversarial prefix) on the real code, goal evaluated by the oracle after a '
-               'step bound of 3*(term_timeout + size*election_factor) + 5*heartbeat of virtual time. The model (Model/Raft.lean, one Lean function '
-               'per raft.rs function; Model/Net.lean network + step) is tied to the code on every run: harness/raft/build.rs compiles the CURRENT '
-               'agdb_server/src/raft.rs (cut at its test module, std::time::Instant replaced by a virtual clock, nothing else changed) into a '
-               'deterministic simulator with an in-memory Storage that mirrors ClusterStorage/ClusterLog; generated adversarial schedules (tick / '
-               'adv / deliver k / append, every message deliverable any number of times in any order or never) are executed on the real code and '
-               'replayed by the Lean driver, and after EVERY event the complete state of every node (state, term, election timeout, log with commit '
-               'flags, storage index/term/commit, per-peer log_index/log_term/log_commit/timer/voted) and every emitted request/response are '
-               'compared. ',
+ 'level_text': 'Lean: a breadth-first explorer with duplicate elimination over ALL fault-free executions (every message delivered exactly once in '
+               'any order, time advancing by a fixed quantum only at quiescence followed by one timer pass of every node, the client appending at '
+               'the leader) with general soundness theorems exploreSetP_sound / exploreSet_sound (explorer true => every execution reaches the '
+               'target within the bound) and a sequential composition lemma reachesWithinP_seq, instantiated by kernel evaluation (decide +kernel '
+               'only): C30_n1, C30_n2 and C30_n3 - clusters of 1, 2 and 3 nodes elect exactly one leader (all others its followers, nothing in '
+               'flight) and an entry appended at the leader becomes present and committed on every node, in EVERY delivery order (3 nodes: '
+               'C30_n3_election reaches one of two explicit post-election states within 13 steps, C30_n3_replication from both within 12, composed '
+               'to 25); C30_post_partition - the same goal from a post-partition start state (prefix of corpus/C28: leader with an uncommitted entry '
+               'nobody received, both other nodes timed out into Election, all earlier messages lost). These are proofs for those finite '
+               'configurations with the default timer ratios; clusters above 3 nodes, other timer ratios and other post-partition states are covered '
+               'only by the harness: fault-free schedules (from the initial state and after an adversarial prefix) on the real code, goal evaluated '
+               'by the oracle after a step bound of 3*(term_timeout + size*election_factor) + 5*heartbeat of virtual time. The model '
+               '(Model/Raft.lean, one Lean function per raft.rs function; Model/Net.lean network + step) is tied to the code on every run: '
+               'harness/raft/build.rs compiles the CURRENT agdb_server/src/raft.rs (cut at its test module, std::time::Instant replaced by a virtual '
+               'clock, nothing else changed) into a deterministic simulator with an in-memory Storage that mirrors ClusterStorage/ClusterLog; '
+               'generated adversarial schedules (tick / adv / deliver k / append, every message deliverable any number of times in any order or '
+               'never) are executed on the real code and replayed by the Lean driver, and after EVERY event the complete state of every node (state, '
+               'term, election timeout, log with commit flags, storage index/term/commit, per-peer log_index/log_term/log_commit/timer/voted) and '
+               'every emitted request/response are compared. ',
  'level_note': 'Trusted: Lean kernel; the hand-written model being faithful (validated on every run by the per-event correspondence, not verified); '
                'u64 arithmetic modelled in Nat (terms/indexes grow by one per event); the Storage implementation never fails and behaves like '
                'ClusterStorage (in-memory mirror; the CommitError paths are not exercised); nodes do not crash/restart (Cluster::new re-reads the '
                'term from the log, restarts are outside the property); messages are not forged (a response is paired with its request by the '
                'transport). The fault-free scheduler of the Lean explorer is defined on the node functions directly (same functions as `step`).',
- 'technique': 'verified explorer + kernel evaluation for n=1..3; fault-free randomized schedules on the real raft.rs with a liveness oracle',
+ 'technique': 'verified BFS explorer + kernel evaluation for n=1..3 and one post-partition state; fault-free randomized schedules on the real '
+              'raft.rs with a liveness oracle',
  'design_ref': 'DESIGN.md §6 C30',
  'assumptions': ['no node restarts; storage calls never fail',
                  'u64 counters do not overflow',
@@ -39,4 +51,5 @@ SPEC = {'id': 'C30',
                  'cluster hash equal on all nodes in generated schedules (validate_hash is modelled, mismatch not generated)',
                  'default timer ratios (election factor = heartbeat, term timeout = 3 x heartbeat)'],
  'quick': {'extra_args': []},
- 'thorough': {'extra_args': []}}
+ 'thorough': {'extra_args': []},
+ 'extra_lean_targets': ['AgdbRaft.Props.C30pp']}
